@@ -23,7 +23,7 @@ RULE = (
     "with the controller's schedule changed in between (same-size versions in half of those); optional caller-side wait_for of 0.3-14 s); a fate for each of "
     "the first 40 request transmissions (ok, request lost, reply lost, reply delayed 0.2-3 s, reply duplicated; loss runs of "
     "4-9 that outlast the 3 retries), 0-3 schedule changes (same or other zone) tied to transmission numbers, 0-3 overheard "
-    "RP|0404 fragments (this/other zone, to this/another gateway); then, faults off, a forced fetch of another zone. "
+    "RP|0404 fragments (this/other zone, to this/another gateway) and 0-2 overheard complete fetches of a zone's current schedule by another gateway; then, faults off, a forced fetch of another zone. "
     "Non-trivial = >= 1 fault, change or overheard fragment fell inside a transfer; distinct by the whole scenario."
 )
 
@@ -100,10 +100,19 @@ def scenario_strategy() -> Any:
                       "ver": draw(st.sampled_from((0, 1, 2, "prev", "prev"))),  # 'prev': the version the zone held before its latest change
                       "to": draw(st.sampled_from(("gwy", "other"))), "delay": draw(st.sampled_from((0.011, 0.011, 0.05, 0.2)))}
                      for _ in range(draw(st.integers(0, 3)))]
+        overheard_full = [{"at": draw(st.integers(1, 12)), "zone": draw(st.sampled_from(ZONES))} for _ in range(draw(st.integers(0, 2)))]
+        if sequential and draw(st.integers(0, 2)) == 0:
+            # 'eavesdropped update': zone0 is fetched, changes on the controller, and its whole new schedule goes by (another
+            # gateway's fetch) while this gateway is busy with a transfer for another zone
+            z1 = draw(st.sampled_from([z for z in ZONES if z != zone0]))
+            transfers = [{"t": 0.0, "zone": zone0, "op": "get", "force_io": True, "caller_timeout": None, "sched": 0, "bump_before": draw(st.sampled_from((None, "own")))},
+                         {"t": draw(st.sampled_from((0.0, 0.05, 1.0))), "zone": z1, "op": draw(st.sampled_from(("get", "get", "set"))), "force_io": True,
+                          "caller_timeout": None, "sched": draw(st.integers(0, 2)), "bump_before": zone0}] + transfers[:1]
+            overheard_full = [{"at": draw(st.integers(3, 11)), "zone": zone0}]
         if sequential and draw(st.booleans()):  # same-size versions: a stale fragment fits the new set
             for z in ZONES:
                 pool[z] = [dict(pool[z][0]), dict(pool[z][0], schedule=_perturb(pool[z][0]["schedule"], 1)), dict(pool[z][0], schedule=_perturb(pool[z][0]["schedule"], 2))]
-        return {"pool": pool, "transfers": transfers, "fates": fates, "bumps": bumps, "overheard": overheard, "prime": draw(st.booleans()), "sequential": sequential}
+        return {"pool": pool, "transfers": transfers, "fates": fates, "bumps": bumps, "overheard": overheard, "overheard_full": overheard_full, "prime": draw(st.booleans()), "sequential": sequential}
 
     return scenario
 
@@ -121,6 +130,7 @@ class Controller:
         self.cur = {z: 0 for z in ZONES}  # index into pool
         self.sched = {z: case["pool"][z][0] for z in ZONES}
         self.prev = dict(self.sched)
+        self.full_injected: dict[str, tuple[float, Any]] = {}
         self.history: dict[str, list[tuple[float, Any]]] = {z: [(0.0, case["pool"][z][0]["schedule"])] for z in ZONES}
         self.counter = 0x0135
         self.tx = 0
@@ -171,6 +181,11 @@ class Controller:
                     frs = self.frames_for(o["zone"], self.prev[o["zone"]] if o["ver"] == "prev" else self.case["pool"][o["zone"]][o["ver"]])
                     p = frs[o["frag"] % len(frs)]
                     self.loop.call_later(o.get("delay", 0.011), self.eth.inject, f"RP --- {CTL} {GWY if o['to'] == 'gwy' else '18:099999'} --:------ 0404 {len(p) // 2:03d} {p}")
+            for o in self.case.get("overheard_full", []):  # another gateway fetches this zone's whole current schedule
+                if o["at"] == self.tx:
+                    for k, p in enumerate(self.frames_for(o["zone"])):
+                        self.loop.call_later(0.012 + 0.01 * k, self.eth.inject, f"RP --- {CTL} 18:099999 --:------ 0404 {len(p) // 2:03d} {p}")
+                    self.full_injected[o["zone"]] = (self.loop.time(), self.sched[o["zone"]]["schedule"])
         self.log.append({"t": self.loop.time(), "n": self.tx, "frame": frame[:60], "fate": fate})
         if fate == "lose-req":
             return
@@ -247,7 +262,8 @@ async def _run(loop: Any, case: dict) -> dict:
         if case.get("sequential"):
             for spec, rec in zip(case["transfers"], recs):
                 if spec.get("bump_before"):
-                    ctl.bump(spec["zone"] if spec["bump_before"] == "own" else next(z for z in ZONES if z != spec["zone"]))
+                    bb = spec["bump_before"]
+                    ctl.bump(spec["zone"] if bb == "own" else bb if bb in ZONES else next(z for z in ZONES if z != spec["zone"]))
                     await asyncio.sleep(0.01)
                 try:
                     await asyncio.wait_for(transfer(spec, rec), timeout=1200)
@@ -261,6 +277,8 @@ async def _run(loop: Any, case: dict) -> dict:
             await asyncio.gather(*pending, return_exceptions=True)
         await vclock.quiesce()
         obs["transfers"] = recs
+        await asyncio.sleep(0.5)
+        obs["after_full"] = {z: {"t": t, "injected": v, "reports": zone_of(z).schedule} for z, (t, v) in ctl.full_injected.items()}
         obs["lock_after"] = tcs.zone_lock_idx
         await asyncio.sleep(1.0)
         obs["lock_after_1s"] = tcs.zone_lock_idx
@@ -354,6 +372,21 @@ def judge(case: dict, obs: dict) -> tuple[list[tuple[dict, str]], dict]:
                 out.append(({"clause": "stale-schedule-from-forced-fetch", "cause": cause},
                             f"transfer {i}: forced get {rec['zone']} in [{rec['t_start']:.2f}, {rec['t_end']:.2f}] returned a version the controller did not hold in that interval "
                             f"(held: {[round(t, 2) for t, _ in versions]})"))
+    # a zone whose whole current schedule was overheard (another gateway's fetch) reports that schedule, a later one, or none -
+    # not a version that had already been superseded when the fragments went by
+    for z, rec in (obs.get("after_full") or {}).items():
+        got = rec["reports"]
+        if got is None or _norm(got) == _norm(rec["injected"]):
+            continue
+        if any(r["zone"] == z and r.get("t_start", 1e9) - 0.1 <= rec["t"] + 0.2 and rec["t"] <= r.get("t_end", 1e9) + 0.1 for r in obs["transfers"]):
+            continue  # overheard while the zone's own transfer held the lock: ignored by design ('protected with a lock')
+        later = [s for t, s in hist.get(z, []) if t >= rec["t"]]
+        earlier = [s for t, s in hist.get(z, []) if t < rec["t"] and _norm(s) != _norm(rec["injected"])]
+        if _norm(got) in [_norm(s) for s in later]:
+            continue
+        if _norm(got) in [_norm(s) for s in earlier]:
+            out.append(({"clause": "superseded-schedule-after-overheard-complete-set"},
+                        f"zone {z}: all fragments of its current schedule were overheard at t={rec['t']:.2f}, yet the zone reports an earlier version"))
     if obs.get("lock_after_1s") is not None:
         out.append(({"clause": "lock-left-behind", "ops": "+".join(sorted({r["op"] for r in obs["transfers"]}))},
                     f"zone_lock_idx == {obs['lock_after_1s']!r} after all transfers ended: "
